@@ -7,18 +7,24 @@
 use crate::common::*;
 use crate::refs::http::*;
 use crate::simhttp::*;
+#[cfg(not(feature = "tk"))]
 use humphrey::http::cors::Cors;
+#[cfg(not(feature = "tk"))]
 use humphrey::http::method::Method;
+#[cfg(not(feature = "tk"))]
 use humphrey::http::{Request, Response, StatusCode};
+#[cfg(not(feature = "tk"))]
 use humphrey::App;
 use humsim::net::SocketAddr;
 use humsim::rng::Rng;
+#[cfg(not(feature = "tk"))]
 use humsim::sim;
 use serde::{Deserialize, Serialize};
 use serde_json::{json, Value};
 use std::sync::{Arc, Mutex};
 use std::time::Duration;
 
+#[cfg(not(feature = "tk"))]
 pub struct C01;
 
 #[derive(Serialize, Deserialize, Clone, Debug)]
@@ -245,6 +251,7 @@ pub struct HState {
     pub log: Mutex<Vec<HandlerEv>>,
 }
 
+#[cfg(not(feature = "tk"))]
 pub fn build_app(threads: usize, timeout_ms: Option<u64>, cors: &str) -> (App<HState>, Arc<HState>) {
     let app: App<HState> = App::new_with_config(threads.clamp(1, 8), HState { log: Mutex::new(Vec::new()) });
     let st = app.get_state();
@@ -313,6 +320,7 @@ pub struct ClientOut {
 
 pub const SERVER_ADDR: &str = "127.0.0.1:8080";
 
+#[cfg(not(feature = "tk"))]
 pub fn run_client(cid: usize, c: &Client, expects: &[Expect], addr: SocketAddr, out: &Arc<Mutex<ClientOut>>, timeout_ms: Option<u64>) {
     // inter-segment gaps stay clearly below the connection timeout (a longer gap that falls on
     // a request boundary is an idle period, which only lock-step scripts model)
@@ -673,6 +681,65 @@ fn check_client_inner(rr: &mut RunResult, tag: &str, scn_timeout_ms: Option<u64>
     let _ = scn_timeout_ms;
 }
 
+/// R7: per connection, the handler log must be exactly the well-formed routed non-OPTIONS
+/// requests the client sent, in order, bodies byte-exact: nothing dropped, merged or altered.
+pub fn check_handler_log(rr: &mut RunResult, tag: &str, scn: &Scn, expects: &[Vec<Expect>], outs: &[ClientOut], client_ok: &[bool], hl: &[HandlerEv]) {
+    for (cid, c) in scn.clients.iter().enumerate() {
+        if !client_ok.get(cid).copied().unwrap_or(false) {
+            continue; // consequences of the first discrepancy
+        }
+        let mine: Vec<&HandlerEv> = hl.iter().filter(|e| e.cid == format!("{}", cid)).collect();
+        // what must have been dispatched: for every expectation answered normally (and the panic one)
+        let mut want = Vec::new();
+        for (i, e) in expects[cid].iter().enumerate() {
+            let r = &c.reqs[i];
+            match e {
+                Expect::Normal { options: false, routed: true, .. } | Expect::PanicClose => want.push((i, r)),
+                _ => {}
+            }
+        }
+        let o = outs[cid].clone();
+        let got_all = o.log.as_ref().map(|l| parse_stream(&l.bytes, l.ended()).0.len() >= expects[cid].iter().filter(|e| !matches!(e, Expect::PanicClose)).count()).unwrap_or(false);
+        // every dispatched request must be one the client sent, unchanged, in order
+        let mut wi = 0;
+        for ev in &mine {
+            let seq: usize = ev.seq.parse().unwrap_or(usize::MAX);
+            let r = match c.reqs.get(seq) {
+                Some(r) => r,
+                None => {
+                    rr.violate(&format!("{}/R7", tag), "dispatched-unknown-request", format!("handler saw a request with X-Seq {:?} that client {} never sent", ev.seq, cid));
+                    continue;
+                }
+            };
+            if ev.method != r.method || ev.uri != r.path || ev.query != r.query || ev.body != r.body.clone().unwrap_or_default() {
+                rr.violate(&format!("{}/R7", tag), format!("dispatched-request-altered:{}", c.mode), format!("client {} request {}: handler saw {} {}?{} body {} but the client sent {} {}?{} body {}", cid, seq, ev.method, ev.uri, ev.query, show_bytes(&ev.body), r.method, r.path, r.query, show_bytes(&r.body.clone().unwrap_or_default())));
+            }
+            while wi < want.len() && want[wi].0 < seq {
+                wi += 1;
+            }
+            if wi < want.len() && want[wi].0 == seq {
+                wi += 1;
+            } else if r.malformed.is_none() {
+                // dispatched although not expected (e.g. after the connection should have closed)
+                if !want.iter().any(|(i, _)| *i == seq) {
+                    rr.violate(&format!("{}/R7", tag), "dispatched-after-close", format!("client {} request {} was dispatched although the connection must already have been closed", cid, seq));
+                }
+            }
+        }
+        let seqs: Vec<usize> = mine.iter().filter_map(|e| e.seq.parse().ok()).collect();
+        if seqs.windows(2).any(|w| w[0] >= w[1]) {
+            rr.violate(&format!("{}/R7", tag), "dispatched-out-of-order-or-twice", format!("client {}: handler log order {:?}", cid, seqs));
+        }
+        if got_all {
+            for (i, _) in &want {
+                if !seqs.contains(i) {
+                    rr.violate(&format!("{}/R7", tag), "answered-but-not-dispatched", format!("client {} request {} was answered but its handler never ran", cid, i));
+                }
+            }
+        }
+    }
+}
+
 fn gen_req(rng: &mut Rng, last: bool, allow_special: bool) -> Req {
     let methods = ["GET", "POST", "PUT", "DELETE", "OPTIONS"];
     let paths = ["/ok", "/echo", "/empty", "/big", "/cors/x", "/nope", "/echo", "/ok"];
@@ -791,6 +858,7 @@ pub fn gen_client(rng: &mut Rng, tier: Tier, timeout_ms: Option<u64>) -> Client 
     }
 }
 
+#[cfg(not(feature = "tk"))]
 impl Prop for C01 {
     fn id(&self) -> &'static str {
         "C01"
@@ -945,60 +1013,8 @@ impl Prop for C01 {
         // R7: handler log per connection = the well-formed routed non-OPTIONS requests, in order, bodies exact
         if let Some(st) = hstate.lock().unwrap().clone() {
             let hl = st.log.lock().unwrap().clone();
-            for (cid, c) in scn.clients.iter().enumerate() {
-                if !client_ok.get(cid).copied().unwrap_or(false) {
-                    continue; // consequences of the first discrepancy
-                }
-                let mine: Vec<&HandlerEv> = hl.iter().filter(|e| e.cid == format!("{}", cid)).collect();
-                // what must have been dispatched: for every expectation answered normally (and the panic one)
-                let mut want = Vec::new();
-                for (i, e) in expects[cid].iter().enumerate() {
-                    let r = &c.reqs[i];
-                    match e {
-                        Expect::Normal { options: false, routed: true, .. } | Expect::PanicClose => want.push((i, r)),
-                        _ => {}
-                    }
-                }
-                let o = outs[cid].lock().unwrap().clone();
-                let got_all = o.log.as_ref().map(|l| parse_stream(&l.bytes, l.ended()).0.len() >= expects[cid].iter().filter(|e| !matches!(e, Expect::PanicClose)).count()).unwrap_or(false);
-                // every dispatched request must be one the client sent, unchanged, in order
-                let mut wi = 0;
-                for ev in &mine {
-                    let seq: usize = ev.seq.parse().unwrap_or(usize::MAX);
-                    let r = match c.reqs.get(seq) {
-                        Some(r) => r,
-                        None => {
-                            rr.violate("C01/R7", "dispatched-unknown-request", format!("handler saw a request with X-Seq {:?} that client {} never sent", ev.seq, cid));
-                            continue;
-                        }
-                    };
-                    if ev.method != r.method || ev.uri != r.path || ev.query != r.query || ev.body != r.body.clone().unwrap_or_default() {
-                        rr.violate("C01/R7", format!("dispatched-request-altered:{}", c.mode), format!("client {} request {}: handler saw {} {}?{} body {} but the client sent {} {}?{} body {}", cid, seq, ev.method, ev.uri, ev.query, show_bytes(&ev.body), r.method, r.path, r.query, show_bytes(&r.body.clone().unwrap_or_default())));
-                    }
-                    while wi < want.len() && want[wi].0 < seq {
-                        wi += 1;
-                    }
-                    if wi < want.len() && want[wi].0 == seq {
-                        wi += 1;
-                    } else if r.malformed.is_none() {
-                        // dispatched although not expected (e.g. after the connection should have closed)
-                        if !want.iter().any(|(i, _)| *i == seq) {
-                            rr.violate("C01/R7", "dispatched-after-close", format!("client {} request {} was dispatched although the connection must already have been closed", cid, seq));
-                        }
-                    }
-                }
-                let seqs: Vec<usize> = mine.iter().filter_map(|e| e.seq.parse().ok()).collect();
-                if seqs.windows(2).any(|w| w[0] >= w[1]) {
-                    rr.violate("C01/R7", "dispatched-out-of-order-or-twice", format!("client {}: handler log order {:?}", cid, seqs));
-                }
-                if got_all {
-                    for (i, _) in &want {
-                        if !seqs.contains(i) {
-                            rr.violate("C01/R7", "answered-but-not-dispatched", format!("client {} request {} was answered but its handler never ran", cid, i));
-                        }
-                    }
-                }
-            }
+            let outs_now: Vec<ClientOut> = outs.iter().map(|o| o.lock().unwrap().clone()).collect();
+            check_handler_log(&mut rr, "C01", &scn, &expects, &outs_now, &client_ok, &hl);
         }
         if nontrivial {
             rr.shapes.push(fnv64(shape.as_bytes()));
